@@ -56,22 +56,36 @@ def lookupSpl (spl : List (Nat × SkRef × SkRef)) (i : Nat) : Option (SkRef × 
 /-- leaving level `i` of the first loop with `prev[i] = p` -/
 def nextLevel (i : Nat) (p : SkRef) : Pc := if i = 0 then .loadH else .scan (i - 1) p
 
+/-- outcome of one iteration of the `findSpliceForLevel` loop -/
+inductive ScanOut where
+  | move (nk : Bytes)            -- `before = next`: keep moving right
+  | found (nk : Bytes)           -- equality case: `return next, next`
+  | splice (p n : SkRef)         -- `return before, next`
+deriving Repr
+
+/-- one iteration of the loop of `findSpliceForLevel(key, before, i)`: the atomic load
+    `next := s.getNext(before, i)` and the (local) comparison with `next.key` -/
+def scanStep (s : Skiplist) (key : Bytes) (before : SkRef) (i : Nat) : ScanOut :=
+  match s.getNext before i with
+  | .node nk =>
+    match compareKeys key nk with
+    | .eq => .found nk
+    | .lt => .splice before (.node nk)
+    | .gt => .move nk
+  | _ => .splice before .nil
+
 /-- one atomic step of a `Put` -/
 def stepPut (s : Skiplist) (l : PutLocal) : Skiplist × PutLocal :=
   match l.pc with
   | .start =>
     -- listHeight := s.getHeight(); prev[listHeight] = s.head; next[listHeight] = nil
-    let lh := s.height
-    (s, { l with lh := lh, spl := [(lh, .head, .nil)],
-                 pc := if lh = 0 then .loadH else .scan (lh - 1) .head })
+    (s, { l with lh := s.height, spl := [(s.height, .head, .nil)],
+                 pc := if s.height = 0 then .loadH else .scan (s.height - 1) .head })
   | .scan i before =>
-    match s.getNext before i with
-    | .node nk =>
-      match compareKeys l.key nk with
-      | .eq => (s, { l with pc := .setval nk })                       -- prev[i] == next[i]
-      | .lt => (s, { l with spl := (i, before, .node nk) :: l.spl, pc := nextLevel i before })
-      | .gt => (s, { l with pc := .scan i (.node nk) })
-    | _ => (s, { l with spl := (i, before, .nil) :: l.spl, pc := nextLevel i before })
+    match scanStep s l.key before i with
+    | .move nk => (s, { l with pc := .scan i (.node nk) })
+    | .found nk => (s, { l with pc := .setval nk })        -- prev[i] == next[i]
+    | .splice p n => (s, { l with spl := (i, p, n) :: l.spl, pc := nextLevel i p })
   | .setval k => (s.setValue k l.v, { l with pc := .done })
   | .loadH =>
     if l.h > s.height then (s, { l with pc := .casH s.height }) else (s, { l with pc := .link 0 })
@@ -87,27 +101,22 @@ def stepPut (s : Skiplist) (l : PutLocal) : Skiplist × PutLocal :=
         if i > 1 then (s, { l with pc := .linkScan i .head false })   -- y.AssertTrue(i > 1)
         else (s, { l with pc := .panic })
   | .linkScan i before retry =>
-    let fin (p n : SkRef) : Skiplist × PutLocal :=
-      if p == n then
-        match retry, p with
-        | true, .node k => if i = 0 then (s, { l with pc := .setval k }) else (s, { l with pc := .panic })
-        | _, _ => (s, { l with pc := .panic })          -- y.AssertTrue(prev[i] != next[i])
-      else (s, { l with spl := (i, p, n) :: l.spl, pc := .cas i })
-    match s.getNext before i with
-    | .node nk =>
-      match compareKeys l.key nk with
-      | .eq => fin (.node nk) (.node nk)
-      | .lt => fin before (.node nk)
-      | .gt => (s, { l with pc := .linkScan i (.node nk) retry })
-    | _ => fin before .nil
+    match scanStep s l.key before i with
+    | .move nk => (s, { l with pc := .linkScan i (.node nk) retry })
+    | .found nk =>
+      -- prev[i] == next[i]: first search: y.AssertTrue(prev[i] != next[i]) fails;
+      -- after a failed CAS: y.AssertTruef(i == 0, …); prev[i].setValue(v); return
+      if retry && i == 0 then (s, { l with pc := .setval nk }) else (s, { l with pc := .panic })
+    | .splice p n => (s, { l with spl := (i, p, n) :: l.spl, pc := .cas i })
   | .cas i =>
     match lookupSpl l.spl i with
     | none => (s, { l with pc := .panic })
     | some (p, nx) =>
       if s.getNext p i == nx then
-        let s1 := s.insertAt i p l.key
-        let s2 := if i = 0 then s1.setValue l.key l.v else s1     -- the node becomes visible
-        (s2, { l with pc := .link (i + 1) })
+        -- the CAS succeeds: x is linked between prev[i] and next[i]; on level 0 this makes the
+        -- node (and its value) visible
+        (if i = 0 then (s.insertAt i p l.key).setValue l.key l.v else s.insertAt i p l.key,
+         { l with pc := .link (i + 1) })
       else (s, { l with pc := .linkScan i p true })
   | .done => (s, l)
   | .panic => (s, l)
